@@ -113,9 +113,10 @@ def run(v) -> None:
             zs = sorted(z)
             iqr_pos = zs[(3 * n) // 4] > zs[n // 4]       # the invariance clause presupposes a non-zero scale estimate
             cases.append({"api": "MatchedFilter", "kind": "boxcar", "z": z, "mx": mx, "fn": fn, "fd": fd,
-                          "inv": rng.choice([(2.0, 5.0), (0.5, -3.0), (4.0, 100.0), (3.0, 0.0), (4.0, 1048576.0), (1.0, 500000.0),
-                                             (2.0 ** 70, 0.0), (2.0 ** -60, 0.0)]) if iqr_pos else None,   # incl. a baseline >> noise and scalings by 2^70 / 2^-60, all exact in float32
-                          "inv_scale": rng.choice(["iqr", "iqr", "std", "mad"])})
+                          # every map is used in turn (not drawn): a baseline >> noise, scalings by 2^70 / 2^-60 - all exact in float32
+                          "inv": [(2.0, 5.0), (4.0, 1048576.0), (0.5, -3.0), (2.0 ** 70, 0.0), (1.0, 500000.0), (4.0, 100.0), (2.0 ** -60, 0.0),
+                                  (3.0, 0.0)][len(cases) % 8] if iqr_pos else None,
+                          "inv_scale": ["iqr", "std", "iqr", "mad"][(len(cases) // 8) % 4]})
             for kind in ("gaussian", "lorentzian"):
                 if n >= 24:
                     cases.append({"api": "MatchedFilter", "kind": kind, "z": z, "mx": 4, "fn": 2, "fd": 1})
